@@ -142,10 +142,19 @@ class C17(core.PropBase):
             applied = M.mutate(rng, doc, n=rng.choice([1, 2]), only=["high_precision"])
             yield {"kind": "job", "doc": doc, "mut": [a[0] for a in applied]}
         for i in range(n // 10):
-            env = i % 2 == 1
+            env = (i // 4) % 2 == 1
             doc = G.gen_env_template(rng, full=True) if env else G.gen_job_template(rng, full=True)
-            k = i % 3
-            if k == 0:
+            k = i % 4
+            if k == 3:
+                # author-chosen KEYS (environment variable names) spelled like the model's own attribute and member names
+                es = M.envs(doc)
+                if es:
+                    e = rng.choice(es)
+                    names = ["schemaStr", "name", "specificationVersion", "parameterDefinitions", "variables", "script", "dependsOn", "type", "schema", "embeddedFiles"]
+                    e["variables"] = {nm: rng.choice(["v", "a b", "x=y", ""]) for nm in rng.sample(names, rng.randint(1, 5))}
+                    if "schemaStr" not in e["variables"] and rng.random() < 0.5:
+                        e["variables"]["schemaStr"] = "s"
+            elif k == 0:
                 doc["schemaStr"] = doc.pop("$schema", "x")
             elif k == 1:
                 doc["schemaStr"] = "y"
